@@ -42,11 +42,11 @@ class Killed(Exception):
 def lattice_spec(
     n=4, moves=None, workers=1, steps=20, seed=1, cap=None, wall=-1, n_jumps=2, maxlength=400,
     allowmaxlength=False, delete_old=False, delete_old_all=False, subcycles=1, screen=0,
-    engine="lattice", ensemble_engines=None, extra_engines=None, zeroswap=None, origin=0.0, lm1=None, keep_side=False, pattern=False, quantis=False,
+    engine="lattice", ensemble_engines=None, extra_engines=None, zeroswap=None, origin=0.0, lm1=None, keep_side=False, pattern=False, quantis=False, int_toml=False,
 ):
     moves = list(moves) if moves else ["sh"] * n
     return dict(
-        origin=origin, lm1=lm1, keep_side=keep_side, pattern=pattern, quantis=quantis,
+        origin=origin, lm1=lm1, keep_side=keep_side, pattern=pattern, quantis=quantis, int_toml=int_toml,
         n=n, moves=moves, workers=workers, steps=steps, seed=seed, cap=cap, wall=wall, n_jumps=n_jumps,
         maxlength=maxlength, allowmaxlength=allowmaxlength, delete_old=delete_old,
         delete_old_all=delete_old_all, subcycles=subcycles, screen=screen, engine=engine,
@@ -106,6 +106,13 @@ def lattice_config(spec):
     if spec.get("quantis"):  # QuanTIS zero swaps: [0-] runs on its own engine section
         cfg["simulation"]["tis_set"]["quantis"] = True
         cfg["engine0"] = dict(eng)
+    if spec.get("int_toml"):
+        # values a user writes without a decimal point arrive as integers (TOML keeps the type): interfaces, cap, lambda_-1
+        as_int = lambda x: int(x) if isinstance(x, float) and x == int(x) else x  # noqa: E731
+        cfg["simulation"]["interfaces"] = [as_int(x) for x in cfg["simulation"]["interfaces"]]
+        for key in ("interface_cap", "lambda_minus_one"):
+            if key in tis_set:
+                tis_set[key] = as_int(tis_set[key])
     if spec.get("seed") is None:
         del cfg["simulation"]["seed"]
     if spec.get("ensemble_engines"):
